@@ -104,3 +104,189 @@ def context_cases(jobs):
         else:
             out.append({"id": job["id"], "props": job["props"], "world": {k: v for k, v in job["world"].items() if k != "methods"} | {"methods": job["contexts"][0]["methods"]}, "steps": steps})
     return out
+
+
+# ---------------------------------------------------------------------------
+# Table-level replay of TLC behaviours (spec -> code): MultiTypeMap driven
+# directly, projection compared after every step.
+# ---------------------------------------------------------------------------
+def _mk_classes(par):
+    classes = [None, object]
+    for c in range(2, len(par) + 1):
+        ps = sorted([p for p in par[c - 1] if p != 1], reverse=True)
+        bases = tuple(classes[p] for p in ps) or (object,)
+        classes.append(type(f"K{c}", bases, {"__module__": "vfworld"}))
+    return classes
+
+
+def table_replay(jobs):
+    """job = {id, world:{par, menu, keys}, steps:[{obs, proj}]} as printed by
+    Gen_Table.  Returns per behaviour the observed results / projections and
+    the result of the same lookup on a brand-new table (the Doc oracle)."""
+    from ovld.core import Signature
+    from ovld.typemap import MultiTypeMap
+
+    def key_error(key, poss=None):
+        return TypeError("Ambiguous resolution" if poss else "No method")
+
+    out = []
+    for job in jobs:
+        w = job["world"]
+        classes = _mk_classes(w["par"])
+        clsid = {c: i for i, c in enumerate(classes) if c is not None}
+
+        def mk_sig(m):
+            types = [classes[t["c"]] for t in m["pos"]]
+            types += [(kn, classes[t["c"]]) for kn, t in zip(m["kwn"], m["kwt"])]
+            return Signature(
+                types=tuple(types), return_type=object, req_pos=m["reqpos"], max_pos=len(m["pos"]),
+                req_names=frozenset(kn for kn, r in zip(m["kwn"], m["kwreq"]) if r), vararg=False,
+                priority=m["prio"], tiebreak=0, is_method=False,
+            )
+
+        def mk_handler(j):
+            ns = {}
+            exec(f"def h{j}(*a, **k):\n    return {j}\n", ns)
+            return ns[f"h{j}"]
+
+        def real_key(k, handlers):
+            t = [classes[c] for c in k["pos"]] + [(n, classes[c]) for n, c in zip(k["kwn"], k["kwa"])]
+            if k["m"]:
+                t = [handlers[k["m"] - 1].__code__] + t
+            return tuple(t)
+
+        def lookup(mtm, handlers, k):
+            try:
+                h = mtm[real_key(k, handlers)]
+                return {"kind": "run", "m": handlers.index(h) + 1}
+            except TypeError as e:
+                return {"kind": "ambiguous" if str(e).startswith("Ambiguous") else "nomethod"}
+            except Exception as e:  # noqa
+                return {"kind": "internal", "err": f"{type(e).__name__}: {e}"[:200]}
+
+        def proj(mtm, handlers):
+            codes = {h.__code__: j + 1 for j, h in enumerate(handlers)}
+
+            def kj(t):
+                m = 0
+                t = list(t)
+                if t and hasattr(t[0], "co_code"):
+                    m = codes.get(t[0], -1)
+                    t = t[1:]
+                pos = [clsid[x] for x in t if not isinstance(x, tuple)]
+                kws = [x for x in t if isinstance(x, tuple)]
+                return {"m": m, "pos": pos, "kwn": [n for n, _ in kws], "kwa": [clsid[c] for _, c in kws]}
+
+            tmc = []
+            for i, tm in mtm.maps.items():
+                name = f"p{i + 1}" if isinstance(i, int) else f"k:{i}"
+                for c in tm.keys():
+                    tmc.append([name, clsid[c]])
+            return {"dict": [kj(t) for t in mtm.keys()], "errs": [kj(t) for t in mtm.errors.keys()], "tmc": tmc}
+
+        mtm = MultiTypeMap(name="T", key_error=key_error)
+        handlers = []
+        regs = []
+        steps = []
+        for st in job["steps"]:
+            o = st["obs"]
+            rec = {"obs": o}
+            if o["op"] == "register":
+                m = w["menu"][o["mi"] - 1]
+                h = mk_handler(len(handlers) + 1)
+                handlers.append(h)
+                regs.append(m)
+                mtm.register(mk_sig(m), h)
+            else:
+                rec["real"] = lookup(mtm, handlers, o["key"])
+                fresh = MultiTypeMap(name="T", key_error=key_error)
+                for m, h in zip(regs, handlers):
+                    fresh.register(mk_sig(m), h)
+                rec["fresh"] = lookup(fresh, handlers, o["key"])
+            rec["proj"] = proj(mtm, handlers)
+            rec["model_proj"] = st["proj"]
+            steps.append(rec)
+        out.append({"id": job["id"], "wid": job["wid"], "steps": steps})
+    return out
+
+
+# ---------------------------------------------------------------------------
+# Function-level histories (code -> spec): register / unregister / call on a
+# real Ovld; every call is also made on a brand-new function built from the
+# tracked method set (the oracle C04 / C05 name).
+# ---------------------------------------------------------------------------
+def history_cases(jobs):
+    """job = {id, props, world (methods = menu), steps:[{op,...}], budget, argmap}"""
+    from ovld import Ovld, _verif
+
+    from .observe import Observer
+    from .realize import BuiltWorld
+
+    out = []
+    for job in jobs:
+        try:
+            bw = BuiltWorld(job["world"])
+            bw.build_functions(register=False)
+        except Exception as e:
+            out.append({"id": job["id"], "skip": f"{type(e).__name__}: {e}"})
+            continue
+        ob = Observer(bw)
+        ns = bw.ns
+        byid = {m["id"]: m for m in job["world"]["methods"]}
+        if job.get("argmap"):
+            ns["ARG"].update({k: bw.instance(c) for k, c in job["argmap"].items()})
+        ov = Ovld()
+        live = []
+        counters = {"tm": 0, "mtm": 0, "plain": 0}
+
+        def point(name, fields):
+            if name == "tm.miss":
+                counters["tm"] += 1
+            elif name == "mtm.miss":
+                counters["mtm"] += 1
+                k = fields.get("key")
+                if not (k and hasattr(k[0], "co_code")):
+                    counters["plain"] += 1
+
+        def user_count():
+            return sum(ns.get("COUNTS", {}).values())
+
+        steps = []
+        err = None
+        try:
+            for st in job["steps"]:
+                rec = dict(st)
+                if st["op"] == "register":
+                    ov.register(ns[st["m"]], priority=byid[st["m"]]["prio"])
+                    live.append(st["m"])
+                elif st["op"] == "unregister":
+                    ov.unregister(ns[st["m"]])
+                    live.remove(st["m"])
+                else:
+                    ns["BUDGET"][0] = job.get("budget", 3)
+                    u0 = user_count()
+                    counters["tm"] = counters["mtm"] = counters["plain"] = 0
+                    _verif.install(point=point)
+                    try:
+                        rec["obs"] = ob.call(ov.dispatch, st["call"], resolve=False)
+                    finally:
+                        _verif.install()
+                    rec["counts"] = {"user": user_count() - u0, "tm_miss": counters["tm"], "mtm_miss": counters["mtm"], "plain_miss": counters["plain"]}
+                    fresh = Ovld()
+                    for mid in live:
+                        fresh.register(ns[mid], priority=byid[mid]["prio"])
+                    ns["BUDGET"][0] = job.get("budget", 3)
+                    rec["fresh"] = ob.call(fresh.dispatch, st["call"], resolve=False) if live else None
+                    if rec["fresh"] is None:
+                        # a function without methods cannot be built; skip the step
+                        continue
+                    rec["fresh_methods"] = list(live)
+                steps.append(rec)
+        except Exception:
+            err = traceback.format_exc()[-500:]
+        bw.cleanup()
+        if err:
+            out.append({"id": job["id"], "skip": "harness: " + err})
+        else:
+            out.append({"id": job["id"], "props": job["props"], "world": job["world"], "steps": steps})
+    return out
